@@ -207,6 +207,7 @@ func openReal(g Geometry, m *Media, opt OpenOptions) *Store {
 			}
 			return s.InitialState
 		}
+		s.Alloc.AfterCrash = afterCrashJudge(m, s.everListed)
 		s.HashInit = s.InitialState.GetKeyLocationMapHashInitialization()
 		s.InitialBlocks = s.Alloc.Reattached
 	}
